@@ -136,6 +136,13 @@ func runC14(c C14Case) string {
 		if got := a.Sign(); got != ac.Sign() {
 			msg = fmt.Sprintf("Sign = %d, want %d", got, ac.Sign())
 		}
+		if msg == "" && ac.IsInt64() {
+			// NewDecimalInt(n) is n with exponent 0
+			msg = valueEq(ion.NewDecimalInt(ac.Int64()), ac, 0)
+			if msg != "" {
+				msg = "NewDecimalInt: " + msg
+			}
+		}
 	case "trunc":
 		k := int64(digitsOf(ac) - c.N)
 		if k < 0 {
